@@ -724,3 +724,291 @@ Proof.
   rewrite (layout_correct cfg _ _ _ Ho H). rewrite expect_app. cbn [expect].
   eexists. eexists. reflexivity.
 Qed.
+
+(* ================================================================== 7. lexemes that end without lookahead *)
+Definition anything (r : list N) : Prop := True.
+
+Lemma nextf_raw : forall cm c r ln, nextf cm false (c :: r) ln = (c, r, ln).
+Proof. intros. unfold nextf. rewrite andb_false_r. reflexivity. Qed.
+
+(* one iteration of run on an empty cache whose first rune reads as itself *)
+Lemma lex_head : forall cfg lt lb c r ln, ops_ok cfg -> c <> 47 ->
+  lex cfg lt lb (fresh (c :: r) ln) =
+  match step (S (S (length r))) cfg lt lb (fresh (c :: r) ln) with
+  | StGo toks lt' lb' s' => toks ++ lex cfg lt' lb' s'
+  | _ => []
+  end.
+Proof. intros. apply lex_step; [assumption|]. unfold msr, fresh. cbn. lia. Qed.
+
+Ltac head_step Ho :=
+  intros r ln _; cbn [app]; rewrite lex_head by (assumption || discriminate);
+  unfold step; cbv zeta; unfold fresh at 1; rewrite next_fresh, nextf_plain by discriminate;
+  cbn; rewrite lex_nolast by assumption; try reflexivity.
+
+Lemma lexeme_open : forall cfg lt lb, ops_ok cfg ->
+  lexeme_at cfg lt lb [40] ((if mul_before_open lt lb then [(tOperate, [42])] else []) ++ [(tOpen, [40])]) tInvalid anything.
+Proof. intros cfg lt lb Ho. head_step Ho. destruct (mul_before_open lt lb); reflexivity. Qed.
+
+Lemma lexeme_close : forall cfg lt lb, ops_ok cfg ->
+  lexeme_at cfg lt lb [41] [(tClose, [41])] (this_ty cfg tClose) anything.
+Proof. intros cfg lt lb Ho. head_step Ho. Qed.
+
+Lemma single_tok_cases : forall n ty, single_tok n = Some ty ->
+  In n [91; 93; 123; 125; 46; 58; 44; 59].
+Proof.
+  intros n ty H. unfold single_tok in H.
+  repeat match type of H with
+  | (if ?a =? ?b then _ else _) = _ => destruct (N.eqb_spec a b); [subst; cbn; tauto|]
+  end. discriminate.
+Qed.
+
+Lemma lexeme_punct : forall cfg lt lb n ty, ops_ok cfg -> single_tok n = Some ty ->
+  lexeme_at cfg lt lb [n] [(ty, [n])] tInvalid anything.
+Proof.
+  intros cfg lt lb n ty Ho H. pose proof (single_tok_cases n ty H) as Hin. cbn in Hin.
+  repeat (destruct Hin as [<-|Hin]; [cbn in H; inversion H; subst; head_step Ho|]). destruct Hin.
+Qed.
+
+Lemma superscript_cases : forall n d, superscript n = Some d ->
+  In (n, d) [(8304, 48); (185, 49); (178, 50); (179, 51); (8308, 52); (8309, 53); (8310, 54); (8311, 55); (8312, 56); (8313, 57)].
+Proof.
+  intros n d H. unfold superscript in H.
+  repeat match type of H with
+  | (if ?a =? ?b then _ else _) = _ => destruct (N.eqb_spec a b); [subst; inversion H; subst; cbn; tauto|]
+  end.
+  destruct ((8308 <=? n) && (n <=? 8313)) eqn:E; [|discriminate]. inversion H; subst. clear H.
+  assert (Hr : n = 8308 \/ n = 8309 \/ n = 8310 \/ n = 8311 \/ n = 8312 \/ n = 8313) by lia.
+  cbn. repeat (destruct Hr as [Hr|Hr]; [subst; cbn; tauto|]). subst. cbn. tauto.
+Qed.
+
+(* superscripts: x² is the operator ^ followed by the number 2, whatever follows *)
+Lemma lexeme_superscript : forall cfg lt lb n d, ops_ok cfg -> superscript n = Some d ->
+  lexeme_at cfg lt lb [n] [(tOperate, [94]); (tNumber, [d])] tInvalid anything.
+Proof.
+  intros cfg lt lb n d Ho H. pose proof (superscript_cases n d H) as Hin. cbn in Hin.
+  repeat (destruct Hin as [Hin|Hin]; [inversion Hin; subst; head_step Ho|]). destruct Hin.
+Qed.
+
+(* ---- string literals *)
+Lemma next_raw : forall cm c r l ln, next cm false (mkSt (c :: r) false l ln) = (c, mkSt r false c ln).
+Proof. intros. rewrite next_fresh, nextf_raw. reflexivity. Qed.
+
+Lemma read_str_escape : forall s f cm r l ln, no_nul s -> (length (escape s) < f)%nat ->
+  read_str f cm (mkSt (escape s ++ 34 :: r) false l ln) = Some (Some s, mkSt r false 34 ln).
+Proof.
+  induction s as [|c s IH]; intros f cm r l ln Hn Hf.
+  - destruct f as [|f]; [cbn in Hf; lia|]. cbn [escape app read_str]. rewrite next_raw. reflexivity.
+  - assert (Hc : c <> 0) by (intro; subst; apply Hn; left; reflexivity).
+    assert (Hs : no_nul s) by (intros Hin; apply Hn; right; exact Hin).
+    cbn [escape] in *. rewrite app_length in Hf.
+    destruct (N.eqb_spec c 92) as [->|H92].
+    { destruct f as [|f]; [cbn in Hf; lia|]. cbn [app read_str]. rewrite !next_raw. cbn.
+      rewrite IH by (assumption || (cbn in Hf; lia)). reflexivity. }
+    destruct (N.eqb_spec c 34) as [->|H34].
+    { destruct f as [|f]; [cbn in Hf; lia|]. cbn [app read_str]. rewrite !next_raw. cbn.
+      rewrite IH by (assumption || (cbn in Hf; lia)). reflexivity. }
+    destruct (N.eqb_spec c 10) as [->|H10].
+    { destruct f as [|f]; [cbn in Hf; lia|]. cbn [app read_str]. rewrite !next_raw. cbn.
+      rewrite IH by (assumption || (cbn in Hf; lia)). reflexivity. }
+    destruct (N.eqb_spec c 13) as [->|H13].
+    { destruct f as [|f]; [cbn in Hf; lia|]. cbn [app read_str]. rewrite !next_raw. cbn.
+      rewrite IH by (assumption || (cbn in Hf; lia)). reflexivity. }
+    destruct (N.eqb_spec c 9) as [->|H9].
+    { destruct f as [|f]; [cbn in Hf; lia|]. cbn [app read_str]. rewrite !next_raw. cbn.
+      rewrite IH by (assumption || (cbn in Hf; lia)). reflexivity. }
+    destruct f as [|f]; [cbn in Hf; lia|]. cbn [app read_str]. rewrite next_raw.
+    destruct (N.eqb_spec c 34); [contradiction|]. destruct (N.eqb_spec c 0); [contradiction|].
+    destruct (N.eqb_spec c 10); [contradiction|]. destruct (N.eqb_spec c 13); [contradiction|].
+    destruct (N.eqb_spec c 92); [contradiction|]. cbn [orb].
+    rewrite IH by (assumption || (cbn in Hf; lia)). reflexivity.
+Qed.
+
+Lemma lexeme_string : forall cfg lt lb s, ops_ok cfg -> no_nul s ->
+  lexeme_at cfg lt lb (string_literal s) [(tString, s)] tInvalid anything.
+Proof.
+  intros cfg lt lb s Ho Hn r ln _. unfold string_literal. cbn [app].
+  rewrite (lex_step (S (S (length (escape s ++ [34] ++ r))))) by (assumption || (unfold msr, fresh; cbn; rewrite !app_length; cbn; lia)).
+  unfold step. cbv zeta. unfold fresh at 1. rewrite next_fresh, nextf_plain by discriminate. cbn.
+  unfold step_string. rewrite <- app_assoc. cbn [app].
+  rewrite read_str_escape by (assumption || (rewrite !app_length; cbn; lia)).
+  cbn. rewrite lex_nolast by assumption. reflexivity.
+Qed.
+
+(* ---- quoted identifiers *)
+Lemma read_skip_quoted : forall s f cm r l ln prev, ~ In 0 s -> ~ In 39 s -> (length s < f)%nat ->
+  read_skip f cm false (fun _ c => negb (c =? 39)) prev (mkSt (s ++ 39 :: r) false l ln)
+  = Some (s, mkSt r true 39 ln).
+Proof.
+  induction s as [|c s IH]; intros f cm r l ln prev H0 H39 Hf.
+  - destruct f as [|f]; [cbn in Hf; lia|]. cbn [app read_skip]. rewrite next_raw. reflexivity.
+  - destruct f as [|f]; [cbn in Hf; lia|]. cbn [app read_skip]. rewrite next_raw.
+    destruct (N.eqb_spec c 0) as [->|_]; [exfalso; apply H0; left; reflexivity|].
+    destruct (N.eqb_spec c 39) as [->|_]; [exfalso; apply H39; left; reflexivity|]. cbn [negb andb].
+    rewrite IH; [reflexivity| | |cbn in Hf; lia]; intro Hin; [apply H0|apply H39]; right; exact Hin.
+Qed.
+
+Lemma lexeme_quoted : forall cfg lt lb s, ops_ok cfg -> ~ In 0 s -> ~ In 39 s ->
+  lexeme_at cfg lt lb (quoted_ident s) ((if mul_before lt then [(tOperate, [42])] else []) ++ [(tIdent, s)])
+            (this_ty cfg tIdent) anything.
+Proof.
+  intros cfg lt lb s Ho H0 H39 r ln _. unfold quoted_ident. cbn [app].
+  rewrite (lex_step (S (S (length (s ++ [39] ++ r))))) by (assumption || (unfold msr, fresh; cbn; rewrite !app_length; cbn; lia)).
+  unfold step. cbv zeta. unfold fresh at 1. rewrite next_fresh, nextf_plain by discriminate. cbn.
+  unfold step_quoted. cbv zeta. rewrite <- app_assoc. cbn [app].
+  rewrite read_skip_quoted by (assumption || (rewrite !app_length; cbn; lia)).
+  rewrite next_cached. rewrite lex_nolast by assumption. rewrite map_app.
+  destruct (mul_before lt); reflexivity.
+Qed.
+
+(* ================================================================== 8. words: numbers, identifiers, keywords, text operators *)
+
+(* a rune that peek hands out unchanged: not '/', not NUL, not a typographic alias *)
+Definition plainc (c : N) : bool := negb (c =? 47) && negb (c =? 0) && (alias c =? c).
+
+(* the stateful matcher accepts every rune of w, starting with previous rune prev *)
+Fixpoint chain (valid : N -> N -> bool) (prev : N) (w : list N) : bool :=
+  match w with [] => true | c :: w' => valid prev c && chain valid c w' end.
+
+(* the rune the scanner sees next in front of r is not accepted after p (or the input ends) *)
+Definition stops (cfg : tcfg) (valid : N -> N -> bool) (p : N) (r : list N) : Prop :=
+  forall ln, fst (fst (nextf (c_comments cfg) true r ln)) = 0
+             \/ valid p (fst (fst (nextf (c_comments cfg) true r ln))) = false.
+
+Lemma last_cons : forall (w : list N) c p, last (c :: w) p = last w c.
+Proof.
+  induction w as [|d w IH]; intros c p; [reflexivity|].
+  change (last (c :: d :: w) p) with (last (d :: w) p). rewrite !IH. reflexivity.
+Qed.
+
+Lemma plainc_spec : forall c, plainc c = true -> c <> 47 /\ c <> 0 /\ alias c = c.
+Proof.
+  intros c H. unfold plainc in H. apply andb_true_iff in H. destruct H as [H H3]. apply andb_true_iff in H. destruct H as [H1 H2].
+  destruct (N.eqb_spec c 47); [discriminate|]. destruct (N.eqb_spec c 0); [discriminate|]. apply N.eqb_eq in H3. auto.
+Qed.
+
+Lemma read_skip_scan : forall w f cm valid prev r l ln, forallb plainc w = true -> chain valid prev w = true ->
+  (fst (fst (nextf cm true r ln)) = 0 \/ valid (last w prev) (fst (fst (nextf cm true r ln))) = false) ->
+  (length w < f)%nat ->
+  read_skip f cm true valid prev (mkSt (w ++ r) false l ln) = Some (w, unread (snd (next cm true (fresh r ln)))).
+Proof.
+  induction w as [|c w IH]; intros f cm valid prev r l ln Hp Hc Hs Hf.
+  - destruct f as [|f]; [cbn in Hf; lia|]. cbn [app read_skip last] in *. rewrite next_nolast.
+    unfold fresh in *. rewrite next_fresh in *. destruct (nextf cm true r ln) as [[n rs'] ln']. cbn [fst snd] in *.
+    destruct Hs as [->|Hs]; [reflexivity|]. rewrite Hs, andb_false_r. reflexivity.
+  - destruct f as [|f]; [cbn in Hf; lia|]. cbn [forallb chain] in *.
+    apply andb_true_iff in Hp. destruct Hp as [Hpc Hp]. apply andb_true_iff in Hc. destruct Hc as [Hvc Hc].
+    destruct (plainc_spec c Hpc) as (H47 & H0 & Hal).
+    cbn [app read_skip]. rewrite next_fresh, nextf_plain by assumption. unfold al. rewrite Hal.
+    destruct (N.eqb_spec c 0); [contradiction|]. rewrite Hvc. cbn [negb andb].
+    rewrite last_cons in Hs. rewrite IH by (assumption || (cbn in Hf; lia)). reflexivity.
+Qed.
+
+(* a first rune that reaches the default case of the switch and reads as itself *)
+Definition wordhead (c : N) : bool :=
+  plainc c && negb (existsb (N.eqb c) [10; 32; 13; 9; 40; 41; 34; 39])
+  && match single_tok c with None => true | Some _ => false end && negb (is_sup c).
+
+Lemma step_wordhead : forall f cfg lt lb c rest ln, wordhead c = true ->
+  step f cfg lt lb (fresh (c :: rest) ln) = step_word f cfg lt ln (mkSt rest false c ln).
+Proof.
+  intros f cfg lt lb c rest ln H. unfold wordhead in H.
+  apply andb_true_iff in H. destruct H as [H Hsup]. apply andb_true_iff in H. destruct H as [H Hsingle].
+  apply andb_true_iff in H. destruct H as [Hp Hex]. destruct (plainc_spec c Hp) as (H47 & H0 & Hal).
+  unfold step. cbv zeta. unfold fresh. rewrite next_fresh, nextf_plain by assumption. unfold al. rewrite Hal.
+  cbn [s_line s_str s_isLast s_last]. cbn [existsb] in Hex.
+  destruct (N.eqb_spec c 10); [discriminate|]. destruct (N.eqb_spec c 32); [discriminate|].
+  destruct (N.eqb_spec c 13); [discriminate|]. destruct (N.eqb_spec c 9); [discriminate|].
+  destruct (N.eqb_spec c 0); [contradiction|]. destruct (N.eqb_spec c 40); [discriminate|].
+  destruct (N.eqb_spec c 41); [discriminate|]. destruct (N.eqb_spec c 34); [discriminate|].
+  destruct (N.eqb_spec c 39); [discriminate|]. cbn [orb].
+  destruct (single_tok c); [discriminate|]. unfold is_sup in Hsup. destruct (superscript c); [discriminate|]. reflexivity.
+Qed.
+
+Definition mul_toks (lt : ttype) : list ptok := if mul_before lt then [(tOperate, [42])] else [].
+
+(* what run does with a scanned word: text operator, keyword or identifier *)
+Definition word_result (cfg : tcfg) (lt : ttype) (w : str) : list ptok * ttype :=
+  match assoc w (c_textops cfg) with
+  | Some op => ([(tOperate, op)], tInvalid)
+  | None => if mem_str w (c_keywords cfg) then ([(tKeyWord, w)], tInvalid)
+            else (mul_toks lt ++ [(tIdent, w)], this_ty cfg tIdent)
+  end.
+
+Lemma word_scan : forall cfg valid c w r ln, wordhead c = true -> forallb plainc w = true ->
+  chain valid 0 (c :: w) = true -> stops cfg valid (last w c) r ->
+  read_skip (S (S (length (w ++ r)))) (c_comments cfg) true valid 0 (unread (mkSt (w ++ r) false c ln))
+  = Some (c :: w, unread (snd (next (c_comments cfg) true (fresh r ln)))).
+Proof.
+  intros cfg valid c w r ln Hh Hp Hc Hs.
+  change (unread (mkSt (w ++ r) false c ln)) with (mkSt (w ++ r) true c ln).
+  set (f := S (length (w ++ r))). cbn [read_skip]. rewrite next_cached.
+  unfold wordhead in Hh. apply andb_true_iff in Hh. destruct Hh as [Hh _]. apply andb_true_iff in Hh. destruct Hh as [Hh _].
+  apply andb_true_iff in Hh. destruct Hh as [Hh _]. destruct (plainc_spec c Hh) as (_ & H0 & _).
+  cbn [chain] in Hc. apply andb_true_iff in Hc. destruct Hc as [Hvc Hc].
+  destruct (N.eqb_spec c 0); [contradiction|]. rewrite Hvc. cbn [negb andb].
+  rewrite read_skip_scan; [reflexivity|assumption|assumption|apply Hs|subst f; rewrite app_length; lia].
+Qed.
+
+Lemma lexeme_word : forall cfg lt lb c w, ops_ok cfg -> wordhead c = true -> forallb plainc w = true ->
+  number_start cfg c = false -> ident_start cfg c = true -> chain (ident_valid cfg) 0 (c :: w) = true ->
+  lexeme_at cfg lt lb (c :: w) (fst (word_result cfg lt (c :: w))) (snd (word_result cfg lt (c :: w)))
+            (stops cfg (ident_valid cfg) (last w c)).
+Proof.
+  intros cfg lt lb c w Ho Hh Hp Hnum Hid Hc r ln HC. cbn [app].
+  rewrite (lex_step (S (S (length (w ++ r))))) by (assumption || (unfold msr, fresh; cbn; lia)).
+  rewrite step_wordhead by assumption. unfold step_word. cbv zeta. rewrite peek_unread. cbn [s_last].
+  rewrite Hnum, Hid. rewrite word_scan by assumption.
+  unfold word_result, mul_toks.
+  destruct (assoc (c :: w) (c_textops cfg)); cbn [fst snd].
+  - rewrite lex_unread_next by (assumption || reflexivity). reflexivity.
+  - destruct (mem_str (c :: w) (c_keywords cfg)); cbn [fst snd]; rewrite lex_unread_next by (assumption || reflexivity);
+      [reflexivity|]. rewrite map_app. destruct (mul_before lt); reflexivity.
+Qed.
+
+Lemma lexeme_number : forall cfg lt lb c w, ops_ok cfg -> wordhead c = true -> forallb plainc w = true ->
+  number_start cfg c = true -> chain (number_valid cfg) 0 (c :: w) = true ->
+  lexeme_at cfg lt lb (c :: w) (mul_toks lt ++ [(tNumber, c :: w)]) (this_ty cfg tNumber)
+            (stops cfg (number_valid cfg) (last w c)).
+Proof.
+  intros cfg lt lb c w Ho Hh Hp Hnum Hc r ln HC. cbn [app].
+  rewrite (lex_step (S (S (length (w ++ r))))) by (assumption || (unfold msr, fresh; cbn; lia)).
+  rewrite step_wordhead by assumption. unfold step_word. cbv zeta. rewrite peek_unread. cbn [s_last].
+  rewrite Hnum. rewrite word_scan by assumption.
+  rewrite lex_unread_next by (assumption || reflexivity). unfold mul_toks. rewrite map_app.
+  destruct (mul_before lt); reflexivity.
+Qed.
+
+(* when does a scan stop: at the end of the input, in front of any separator, in front of a rune the matcher rejects *)
+Lemma stops_nil : forall cfg valid p, stops cfg valid p [].
+Proof. intros cfg valid p ln. left. reflexivity. Qed.
+
+Definition rejects_blanks (valid : N -> N -> bool) (p : N) : Prop :=
+  valid p 32 = false /\ valid p 9 = false /\ valid p 13 = false /\ valid p 10 = false.
+
+Lemma stops_sep : forall cfg valid p x r, sep_ok (c_comments cfg) x = true -> sep_final x = false ->
+  rejects_blanks valid p -> stops cfg valid p (sep_text x ++ r).
+Proof.
+  intros cfg valid p x r Hok Hfin (H32 & H9 & H13 & H10) ln.
+  destruct x as [| | | |b t|b|b|b]; cbn [sep_text app]; try discriminate;
+    try (rewrite nextf_plain by discriminate; right; cbn; assumption).
+  - cbn [sep_ok] in Hok. apply andb_true_iff in Hok. destruct Hok as [Hok Ht]. apply andb_true_iff in Hok. destruct Hok as [Hcm Hb].
+    assert (Ht' : t = 10 \/ t = 13) by (apply orb_true_iff in Ht; destruct Ht as [Ht|Ht]; apply N.eqb_eq in Ht; auto).
+    unfold nextf. rewrite Hcm. cbn [andb N.eqb Pos.eqb]. rewrite <- app_assoc. cbn [app]. rewrite skip_line_body by assumption.
+    right. destruct Ht' as [Ht'|Ht']; subst t; cbn; assumption.
+  - cbn [sep_ok] in Hok. apply andb_true_iff in Hok. destruct Hok as [Hcm Hb].
+    unfold nextf. rewrite Hcm. cbn [andb N.eqb Pos.eqb]. rewrite <- app_assoc. cbn [app]. rewrite skip_block_body by assumption.
+    destruct r; [left; reflexivity|right; cbn; assumption].
+Qed.
+
+Lemma stops_final : forall cfg valid p x, sep_ok (c_comments cfg) x = true -> sep_final x = true ->
+  stops cfg valid p (sep_text x).
+Proof.
+  intros cfg valid p x Hok Hfin ln. left.
+  destruct x as [| | | |b t|b|b|b]; try discriminate; cbn [sep_text sep_ok] in *;
+    apply andb_true_iff in Hok; destruct Hok as [Hcm Hb]; unfold nextf; rewrite Hcm; cbn [andb N.eqb Pos.eqb].
+  - rewrite skip_line_open by assumption. reflexivity.
+  - pose proof (skip_block_open b ln Hb) as Hn. destruct (skip_block b ln) as [o l2]. cbn in Hn. subst o. reflexivity.
+Qed.
+
+Lemma stops_rune : forall cfg valid p c r, c <> 47 -> valid p (alias c) = false -> stops cfg valid p (c :: r).
+Proof. intros cfg valid p c r Hc Hv ln. rewrite nextf_plain by assumption. right. exact Hv. Qed.
